@@ -150,7 +150,7 @@ impl Estimate for Quantile {
         let mut k: usize;
         if x < self.q[0] {
             self.q[0] = x;
-            k = 0;
+            k = 1;
         } else {
             k = 4;
             for i in 1..5 {
